@@ -12,7 +12,7 @@ from . import tlc
 from .common import setup_repo, rng
 
 SAMPLE = 2
-KINDS = ['src', 'map', 'filter', 'del', 'obs', 'sort', 'fin', 'dup', 'cat', 'fault']
+KINDS = ['src', 'map', 'filter', 'del', 'obs', 'sort', 'fin', 'dup', 'cat', 'cond', 'fault']
 
 # variants: the real processors an abstract kind stands for
 VARIANTS = {
@@ -25,6 +25,7 @@ VARIANTS = {
     'fin': ['finalizer', 'finalizer_stats'],
     'dup': ['duplicate', 'duplicate_batch1'],
     'cat': ['concatenate'],
+    'cond': ['flow', 'callable'],
     'fault': ['processor'],
 }
 
@@ -215,6 +216,12 @@ class Run:
         if k == 'dup':
             # duplicate(): the first resource, the copy right after it (unique names per step)
             return DF.duplicate(target_name='copy%d' % i, target_path='copy%d.csv' % i, batch_size=1 if variant == 'duplicate_batch1' else 1000)
+        if k == 'cond':
+            inner = self.real(i, {'kind': st['inner']}, VARIANTS[st['inner']][0])
+            pred = bool(st['pred'])
+            if variant == 'callable':
+                return DF.conditional(lambda dp: pred, lambda dp: DF.Flow(inner))
+            return DF.conditional(lambda dp: pred, DF.Flow(inner))
         if k == 'cat':
             return DF.concatenate(dict(s=[], k=[], v=[]), target=dict(name='cat%d' % i, path='cat%d.csv' % i))
         if k == 'fin':
@@ -407,6 +414,8 @@ def random_program(r, max_len, kinds, need=None):
                 steps.append({'kind': k})
             elif k == 'fault':
                 steps.append({'kind': 'fault', 'at': r.choice(['pkg', 'row', 'end']), 'cls': r.choice(['gen', 'cast', 'uniq'])})
+            elif k == 'cond':
+                steps.append({'kind': 'cond', 'pred': r.random() < 0.6, 'inner': r.choice(['map', 'filter', 'sort'])})
             else:
                 steps.append({'kind': k})
         if not ok:
